@@ -22,7 +22,7 @@ use std::fs;
 use std::time::{Duration, Instant};
 
 use inputs::Input;
-use pool::{Outcome, Proc};
+use pool::{Outcome, Proc, classes_of, fails_of, minimise};
 use serde_json::{Value, json};
 use vcommon::Rng;
 use worker::*;
@@ -189,75 +189,6 @@ fn build_inputs(rng: &mut Rng, pl: &Plan) -> Vec<Input> {
         }
     }
     inputs
-}
-
-/// (class, detail, signature) of every failure of one answer; the key of a failure is class+signature
-fn fails_of(v: &Value) -> Vec<(String, String, String)> {
-    v["fails"]
-        .as_array()
-        .map(|a| {
-            a.iter()
-                .map(|f| {
-                    (
-                        f["class"].as_str().unwrap_or("?").to_string(),
-                        f["detail"].as_str().unwrap_or("").to_string(),
-                        f["sig"].as_str().unwrap_or("").to_string(),
-                    )
-                })
-                .collect()
-        })
-        .unwrap_or_default()
-}
-
-fn classes_of(o: &Outcome) -> Vec<(String, String, String)> {
-    match o {
-        Outcome::Answer(v) => fails_of(v),
-        Outcome::Hang(t) => vec![("hang".into(), format!("no answer after {t:.0}s (twice)"), String::new())],
-        Outcome::Died(s) => vec![("died".into(), format!("worker process died: {s}"), String::new())],
-    }
-}
-
-/// Delta debugging (ddmin over characters): smallest text found on which `class` still occurs.
-fn minimise(p: &mut Proc, flags: u32, text: &str, class: &str, sig: &str, timeout: Duration) -> (String, usize) {
-    let t0 = Instant::now();
-    let mut tests = 0usize;
-    let mut cur: Vec<char> = text.chars().collect();
-    let mut n = 2usize;
-    let mut test = |cand: &[char], tests: &mut usize| -> bool {
-        *tests += 1;
-        let s: String = cand.iter().collect();
-        let o = p.request(flags, &s, timeout);
-        classes_of(&o).iter().any(|(c, _, g)| c == class && g == sig)
-    };
-    while cur.len() >= 2 && tests < 400 && t0.elapsed() < Duration::from_secs(90) {
-        let len = cur.len();
-        let chunk = len.div_ceil(n);
-        let mut reduced = false;
-        for i in 0..n {
-            let (a, b) = (i * chunk, ((i + 1) * chunk).min(len));
-            if a >= b {
-                continue;
-            }
-            // complement of chunk i
-            let cand: Vec<char> = cur[..a].iter().chain(cur[b..].iter()).copied().collect();
-            if test(&cand, &mut tests) {
-                cur = cand;
-                n = (n - 1).max(2);
-                reduced = true;
-                break;
-            }
-            if tests >= 400 || t0.elapsed() >= Duration::from_secs(90) {
-                break;
-            }
-        }
-        if !reduced {
-            if n >= len {
-                break;
-            }
-            n = (2 * n).min(len);
-        }
-    }
-    (cur.into_iter().collect(), tests)
 }
 
 fn size_bucket(n: usize) -> &'static str {
